@@ -12,8 +12,8 @@ PARTIAL = ('proved over the reals for all inputs: mul2 of two uncertain reals (e
            'disjoint influences, _simple_variance tolerances -> RuntimeError; % and fmod (value = floor/trunc remainder, uc/dc/ic '
            'unchanged, incl. x = 0 where the argument itself is returned; ZeroDivisionError / ValueError iff y = 0); merge (value of a, '
            'components of both, RuntimeError iff |a-b| > TOL); implicit (components = -(dF/dx_i)/(dF/dx) u_i through the chain rule '
-           'of C02 for fn given as an expression tree, RuntimeError when there is no sign change or the range is empty, the '
-           'bracket-end defect refuted and the repaired variant proved).  NOT proved: convergence of the Newton/bisection loop to a '
+           'of C02 for fn given as an expression tree, the derivative is taken at the returned point for every successful search, a root at '
+           'a bracket end is returned as that end, RuntimeError when there is no sign change or the range is empty).  NOT proved: convergence of the Newton/bisection loop to a '
            'root (the loop is modelled and run bit-exactly, its result is a hypothesis of the component theorem), "fn(x) has zero '
            'components" for the returned x (needs a two-variable chain rule), complex arguments of merge/implicit, and rounding.')
 ASSUMPTIONS = ['rounding error of float arithmetic is not bounded by proof (theorems are over the reals)',
@@ -356,11 +356,9 @@ def gen_implicit(rng, C, k):
            'outcome': ('exn:' + r[1] if r[0] == 'exn' else ('ok:%s-evaluations' % ('2-3' if ne2 - ne <= 3 else '4-8' if ne2 - ne <= 8 else '9+'))),
            'py': 'implicit(%s, %r, %r, %r)' % (p, lo, hi, eps)})
 
-CASE2 = '''Definition case_implicit2 tbl ctx ne captured e x_min x_max eps exp exp_ne : Z :=
-  let c := case_implicit tbl ctx ne captured e x_min x_max eps exp exp_ne in
-  if Z.eqb c (-1) then c
-  else let '(got, ne') := model_implicit true tbl ctx ne captured e x_min x_max eps in
-       if sobs_eqb got exp && Z.eqb ne' exp_ne then (-2)%Z else c.
+# (kept under this name for harness/p_C02.py, which reuses these cases: before finding C20-implicit-end was fixed this was a
+# second comparison against the repaired variant of the model; there is one model now)
+CASE2 = '''Definition case_implicit2 := case_implicit.
 '''
 
 def correspondence(rng, tier):
@@ -376,14 +374,10 @@ def correspondence(rng, tier):
     vals, errs = coq_eval_cases('C20', HEADER + CASE2, C.terms, per_file=30 if q else 120, timeout=900)
     for e in errs:
         mism.append({'kind': 'coqc-failed', 'file': e['file'], 'output': e['output'][-1200:]})
-    repaired = 0
-    kf = kf_C20_implicit_end()[0]
     for v, m, t in zip(vals, C.meta, C.terms):
         if v is None or v == -1: continue
-        if v == -2 and not kf:
-            repaired += 1; continue        # the implementation follows the repaired model (proposed_fixes/C20_1.diff) at both ends
         mism.append({'kind': 'model-vs-implementation', 'case': m, 'code': v, 'term': t[:1500]})
-    dist = dict(C.stats); dist['implicit_cases_matching_repaired_model'] = repaired
+    dist = dict(C.stats)
     distinct = len(set(hashlib.sha1(t.encode()).hexdigest() for t, m in zip(C.terms, C.meta)))
     return {'programs': len(C.terms), 'steps': len(C.terms), 'mismatches': mism, 'distinct': distinct, 'distribution': dist,
             'rule': 'one call per case: x % y / fmod(x,y) over structural kinds of x (elementary, dependent, sum, scaled, intermediate, constant, mixed) '
@@ -499,6 +493,20 @@ def check_implicit_bracket(fam, a0, ua, lo, hi, eps=1e-13):
     if not (lo <= x.x <= hi) or abs(g(x.x, a0)) > 1e-6 * max(1.0, abs(a0)): return 'implicit returned %r, fn there = %r' % (x.x, g(x.x, a0))
     return None
 
+def check_implicit_end(fam, a0, ua, end, width, eps=1e-13):
+    """a root exactly at a bracket end is returned as such (regression oracle of the fixed finding C20-implicit-end)"""
+    from GTC import core, function, reporting
+    new_context(46)
+    a = core.ureal(a0, ua)
+    fn, dxda = {'lin': (lambda v: v - a, 1.0), 'declin': (lambda v: a - v, 1.0), 'scaled': (lambda v: 3.0 * v - 3.0 * a, 1.0)}[fam]
+    lo, hi = (a0, a0 + width) if end == 'lo' else (a0 - width, a0)
+    x = function.implicit(fn, lo, hi, eps)
+    if abs(x.x - a0) > 1e-9 * max(1.0, abs(a0)):
+        return 'root %r at the %s end of [%r, %r] but implicit returned %r' % (a0, end, lo, hi, x.x)
+    c = reporting.u_component(x, a)
+    if abs(c - dxda * ua) > 1e-7 * max(1.0, ua): return 'component %r at a bracket-end root, expected %r' % (c, dxda * ua)
+    return None
+
 def run_check(f):
     k = f['kind']
     if k == 'implicit_bracket': return check_implicit_bracket(f['family'], f['a0'], f['ua'], f['lo'], f['hi'], f.get('eps', 1e-13))
@@ -506,7 +514,7 @@ def run_check(f):
     if k in ('mod', 'fmod'): return check_mod(f['x'], f['u'], f['y'], k)
     if k == 'merge': return check_merge(f['x'], f['ua'], f['ub'], f['delta'], f['tol'])
     if k == 'implicit': return check_implicit(f['family'], f['a0'], f['ua'], f['lo'], f['hi'], f.get('dep', False))
-    if k == 'implicit_end': return None if not kf_C20_implicit_end()[0] else 'known'
+    if k == 'implicit_end': return check_implicit_end(f['family'], f['a0'], f['ua'], f['end'], f['width'], f.get('eps', 1e-13))
     return None
 
 def search(rng, tier, broken):
@@ -521,7 +529,10 @@ def search(rng, tier, broken):
                  'y': rng.choice([3.0, -3.0, 2.5, -2.5, rng.uniform(0.1, 5), -rng.uniform(0.1, 5)])}
         elif c < 0.8:
             f = {'kind': 'merge', 'x': rv(rng), 'ua': ru(rng), 'ub': ru(rng), 'delta': rng.choice([0.0, 3e-14, 1e-12, 0.25]), 'tol': rng.choice([1e-13, 1e-6])}
-        elif c < 0.9:
+        elif c < 0.84:
+            f = {'kind': 'implicit_end', 'family': rng.choice(['lin', 'declin', 'scaled']), 'a0': rng.choice([1.0, 3.0, rng.uniform(0.5, 4.0)]),
+                 'ua': ru(rng), 'end': rng.choice(['lo', 'hi']), 'width': rng.choice([2.0, 0.25, rng.uniform(0.1, 5.0)]), 'eps': rng.choice([1e-13, 1e-9])}
+        elif c < 0.92:
             fam = rng.choice(['lin', 'declin', 'sq', 'negsq', 'exp', 'decexp'])
             a0 = rng.uniform(0.5, 4.0)
             lo = rng.uniform(-6.0, 6.0) if fam not in ('sq', 'negsq') else rng.choice([rng.uniform(0.0, 4.0), rng.uniform(-4.0, -0.5)])
@@ -541,10 +552,10 @@ def search(rng, tier, broken):
     return {'tried': n, 'failing': None}
 
 def is_known(f):
-    """known finding C20-implicit-end: a root at (within epsilon of) a bracket end"""
-    return isinstance(f, dict) and f.get('kind') == 'implicit_end'
+    return False          # C20-implicit-end is fixed: nothing is excused any more
 
 def kf_C20_implicit_end():
+    """regression test of the FIXED finding: reproduces iff implicit returns the function value for a root at a bracket end"""
     from GTC import core, function
     new_context(44)
     x = core.ureal(1.0, 0.1)
